@@ -121,6 +121,23 @@ def _run(ck: core.Check, pool):
                           "kind": rng.choice(P.FAULT_KINDS), "at": rng.choice(["init", "run"]),
                           "exc_id": rng.randrange(len(L.EXC_CLASSES))})
         tasks.append({"level": "off", "steps": steps, "sel": sel, "seed": rng.randrange(10**6)})
+    # round 6: faults at the inlined legacy-opset models and at the dtype-sensitive / ml / sampling operators
+    try:
+        from harness import lib_vpdtype as DT
+        from harness import lib_vplegacy as LG
+
+        fams = [(LG.gen_legacy_program, t) for t in sorted(LG.TEMPLATES)] + [(DT.gen_dtype_program, t) for t in DT.TEMPLATES]
+        for gen, t in fams:
+            for _ in range(ck.pick(1, 8)):
+                steps = gen(rng, t)
+                sel = rng.choice(["reference", "onnxruntime"])
+                for _ in range(ck.pick(2, 4)):
+                    tasks.append({"level": "program", "steps": steps, "sel": sel, "k": rng.randrange(1000),
+                                  "kind": rng.choice(P.FAULT_KINDS), "at": rng.choice(["init", "run"]),
+                                  "exc_id": rng.randrange(len(L.EXC_CLASSES))})
+                tasks.append({"level": "off", "steps": steps, "sel": sel, "seed": rng.randrange(10**6)})
+    except Exception as e:  # noqa: BLE001
+        ck.broken("oracle", "C15 legacy / dtype program generator", f"{type(e).__name__}: {str(e)[:200]}")
     # fixed cases: constants spox propagates by itself (no backend): strings as str / UTF-8 bytes, NULs, non-ASCII
     fixed_consts = [
         [{"op": "const", "how": "value_string", "data": "ü", "bytes": True}],
